@@ -84,7 +84,8 @@ CLAIMED = {
          'inputs: for a body that leaves broadcast collections alone the lifted scan is the unrolled Python loop over sliced variables (unroll does not occur); a write to a broadcast collection '
          'is accepted only when its value cannot depend on the iteration, input or carry (non-interference), otherwise rejected; under vmap what is left in a None-axis collection is identical at '
          'every index; the axis arithmetic of axes_scan.py (transpose_to_front / transpose_from_front for in_axes / out_axes / variable_axes at any, also negative, position) is a pair of '
-         'inverse permutations for every rank, and moving the scan axis of a stack of L slices to the front exposes the slices. Tied to /repo per run: a Linen module interpreting integer '
+         'inverse permutations for every rank, and moving the scan axis of a stack of L slices to the front exposes the slices; with flax.typing.In / Out markers a collection only Out(axis) entries '
+         'match is not handed to the function and one only In(axis) entries match comes back unchanged (corollaries of the lift.pack theorems of C05). Tied to /repo per run: a Linen module interpreting integer '
          'bodies over variables in the collections ax0 / ax1 / ax2 / axm1 / bc / carry under nn.scan and nn.vmap (variable axes 0, 1, 2, -1, non-square shapes, lengths 1-4, reverse, unroll, '
          'split_rngs), apply on stacked variables and init; final carry, stacked outputs and collections compared in Coq and with the Python loop / per-index calls on the real code; key '
          'equality pattern per split_rngs; nn.scan with array-valued steps and in_axes / out_axes / variable_axes at every position against the Python loop, its shapes against Model/Axes.v; '
@@ -260,14 +261,14 @@ CLAIMED = {
     ref='DESIGN.md section 5, C19'),
   'C20': dict(
     text='Theorems: pad_shard_unpad returns map f x for every batch size, device count >= 1 and min_device_batch (padding arithmetic as coded, chunking lemmas shared with C10); '
-         '_invert_perm is the inverse permutation; shard is the (d, n) reshape whose rows concatenate to the input, stack_forest is the transposition of the forest, onehot has entry (i, j) = on exactly '
+         '_invert_perm is the inverse permutation; the nested scans of _scan_nd thread the carry and stack the outputs like the nested Python loop over the scanned axes in row-major order (every body, depth, extent); shard is the (d, n) reshape whose rows concatenate to the input, stack_forest is the transposition of the forest, onehot has entry (i, j) = on exactly '
          'when j is label i, so a label in [0, num_classes) lights exactly one position and any other none, for every label value and number of classes; prefetch_to_device (as repaired) yields the items in order then stop/the exception for every length, failing position and '
          'size >= 1; PrefetchIterator as a labelled transition system (next outside the lock, put/wake/fail/get critical sections) satisfies, for EVERY schedule, that the '
          'consumer has seen a prefix of the items in order followed - only after all of them - by StopIteration or the source\'s exception (inductive invariant). '
          'Tied to /repo per run: a cooperative threading substitute drives the real PrefetchIterator through all schedules of small sources (thousands), each recorded '
          'interleaving is replayed in the Coq transition system; grids for padding, scan_in_dim vs nested loops, reshapes (shard / stack_forest / onehot also against the model, onehot over 7 integer label dtypes and up to 1000 classes).',
     note='Trusted: Coq kernel, vm_compute, harness incl. coop.py (cooperative scheduler), jaxcompat. Not exhibited by the model: OS preemption inside a critical section, '
-         'liveness (fairness). scan_in_dim beyond the permutation lemma is checked by oracle only. F5 and F6 fixed in /repo. No axioms.',
+         'liveness (fairness). scan_in_dim: the permutation lemmas and the nested-scan theorem (scan_nd = nested loop) are proved, the transposes themselves are tied by the correspondence and the oracle. F5 and F6 fixed in /repo. No axioms.',
     technique='Coq proof (transition-system invariant over all schedules; list/arith lemmas) + systematic schedule exploration replayed in the model by vm_compute',
     ref='DESIGN.md section 5, C20'),
 }
